@@ -39,7 +39,7 @@ CHECKS = {
    note='Trusted: Coq kernel (axiom-free), hand model SparseLUDefs.v, unordered_map modelled as finite map, extraction (ExtrOcamlBasic+ExtrOcamlZBigInt). Known finding F4 listed in known_findings.txt.',
    design='5/C16'),
  'C08': dict(
-   technique='Coq proof that the optimised prolongation regenerated from the macro FINE_NODE_PROLONGATION (translator T3) is the row model, and Coq proof (1-D transposition lemmas + tensor-product factorisation; direct case analysis for the 7-point extrapolated pair; convexity; midpoint characterisation of linear reproduction; refutation witness F3) + complete per-grid matrix correspondence',
+   technique='Coq proof that the optimised prolongation, the extrapolated prolongation and both loop nests of the optimised restriction regenerated from the source (translator T3) are the row models P, Pex, R, and Coq proof (1-D transposition lemmas + tensor-product factorisation; direct case analysis for the 7-point extrapolated pair; convexity; midpoint characterisation of linear reproduction; refutation witness F3) + complete per-grid matrix correspondence',
    text='For every odd nr >= 3 and ntheta = 2Mc (Mc >= 2) and all positive spacings: R is entrywise the transpose of P, Rex of Pex; '
         'P has non-negative weights summing to one; injection after (extrapolated) prolongation is the identity; P reproduces '
         'functions linear in r exactly where the fine node is the midpoint of its coarse neighbours (iff), and the unrestricted '
